@@ -1508,6 +1508,134 @@ T('C03', 'twin-decrypt-recipient-test-inverted', PGP, "        if self.fingerpri
 T('C16', 'twin-decrypt-recipient-test-inverted', PGP, "        if self.fingerprint.keyid not in message.encrypters:\n            sks = set(self.subkeys)\n            mis = set(message.encrypters)\n            if sks & mis:\n                skid = list(sks & mis)[0]\n                return self.subkeys[skid].decrypt(message)\n\n            raise PGPError(\"Cannot decrypt the provided message with this key\")\n",
   "        mine = self.fingerprint.keyid\n        if mine in message.encrypters:\n            pass\n        else:\n            sks = set(self.subkeys)\n            mis = set(message.encrypters)\n            if sks & mis:\n                skid = list(sks & mis)[0]\n                return self.subkeys[skid].decrypt(message)\n\n            raise PGPError(\"Cannot decrypt the provided message with this key\")\n")
 
+# ---- round 2 of the independent refactoring agent (noisy before the engine / canonicaliser additions listed in DESIGN 10.9)
+T('C03', 'ag2-pkalg-table-try-else', PK, '        ct = _c.get(self._pkalg, None)\n        self.ct = ct() if ct is not None else ct',
+  '        try:\n            factory = _c[self._pkalg]\n\n        except KeyError:\n            self.ct = None\n\n        else:\n            self.ct = factory()')
+T('C03', 'ag2-pkalg-module-table', PK, 'class PKESessionKey(VersionedPacket):',
+  '_PKESK_CIPHERTEXT = {PubKeyAlgorithm.RSAEncryptOrSign: RSACipherText,\n                     PubKeyAlgorithm.RSAEncrypt: RSACipherText,\n                     PubKeyAlgorithm.ElGamal: ElGCipherText,\n                     PubKeyAlgorithm.FormerlyElGamalEncryptOrSign: ElGCipherText,\n                     PubKeyAlgorithm.ECDH: ECDHCipherText}\n\n\nclass PKESessionKey(VersionedPacket):',
+  more=[(PK, '        _c = {PubKeyAlgorithm.RSAEncryptOrSign: RSACipherText,\n              PubKeyAlgorithm.RSAEncrypt: RSACipherText,\n              PubKeyAlgorithm.ElGamal: ElGCipherText,\n              PubKeyAlgorithm.FormerlyElGamalEncryptOrSign: ElGCipherText,\n              PubKeyAlgorithm.ECDH: ECDHCipherText}\n\n        ct = _c.get(self._pkalg, None)', '        ct = _PKESK_CIPHERTEXT.get(self._pkalg, None)')])
+T('C03', 'ag2-rsact-setattr', FL, '        ct.me_mod_n = MPI(cls.bytes_to_int(encfn(*args)))',
+  "        setattr(ct, 'me_mod_n', MPI(cls.bytes_to_int(encfn(*args))))")
+T('C03', 'ag2-rsact-partial', FL, 'import hashlib',
+  'import functools\nimport hashlib',
+  more=[(FL, '    def encrypt(cls, encfn, *args):\n        ct = cls()\n        ct.me_mod_n = MPI(cls.bytes_to_int(encfn(*args)))\n        return ct\n\n    def decrypt(self, decfn, *args):\n        return decfn(*args)', "    def encrypt(cls, fn, *fnargs):\n        run = functools.partial(fn, *fnargs)\n        ct = cls()\n        ct.me_mod_n = MPI(int.from_bytes(run(), 'big'))\n        return ct\n\n    def decrypt(self, fn, *fnargs):\n        return functools.partial(fn, *fnargs)()")])
+T('C03', 'ag2-mdc-a2b-hex', PK, '        return super(MDC, self).__bytearray__() + binascii.unhexlify(self.mdc)',
+  '        return super(MDC, self).__bytearray__() + binascii.a2b_hex(self.mdc)')
+T('C03', 'ag2-seipd-percent-format', PK, '        data = iv + iv[-2:] + data',
+  "        data = b'%b%b%b' % (iv, iv[-2:], data)")
+T('C03', 'ag2-pkesk-alg-properties', PK, '    def __init__(self):\n        super(PKESessionKeyV3, self).__init__()',
+  '    @property\n    def _is_rsa(self):\n        return self.pkalg == PubKeyAlgorithm.RSAEncryptOrSign\n\n    @property\n    def _is_ecdh(self):\n        return self.pkalg == PubKeyAlgorithm.ECDH\n\n    def __init__(self):\n        super(PKESessionKeyV3, self).__init__()',
+  more=[(PK, '        if self.pkalg == PubKeyAlgorithm.RSAEncryptOrSign:\n            encrypter = pk.keymaterial.__pubkey__().encrypt\n            encargs = (bytes(m), padding.PKCS1v15(),)\n\n        elif self.pkalg == PubKeyAlgorithm.ECDH:', '        if self._is_rsa:\n            encrypter = pk.keymaterial.__pubkey__().encrypt\n            encargs = (bytes(m), padding.PKCS1v15(),)\n\n        elif self._is_ecdh:')])
+T('C03', 'ag2-pkesk-type-ct-classmethod', PK, '        self.ct = self.ct.encrypt(encrypter, *encargs)',
+  '        self.ct = type(self.ct).encrypt(encrypter, *encargs)')
+T('C03', 'ag2-pkesk-decrypt-star-tuple-call', PK, '        m = bytearray(self.ct.decrypt(decrypter, *decargs))',
+  '        m = bytearray(self.ct.decrypt(*(decrypter, *decargs)))')
+T('C03', 'ag2-skesk-parse-slice-forms', PK, '        _bytes = bytearray()\n        _bytes += super(SKESessionKeyV4, self).__bytearray__()\n        _bytes += self.s2k.__bytearray__()[1:]\n        _bytes += self.ct\n        return _bytes',
+  '        return bytearray().join((super(SKESessionKeyV4, self).__bytearray__(),\n                                 self.s2k.__bytearray__()[1:],\n                                 self.ct))',
+  more=[(PK, '        packet.insert(0, 255)\n        self.s2k.parse(packet, iv=False)\n\n        ctend = self.header.length - len(self.s2k)\n        self.ct = packet[:ctend]\n        del packet[:ctend]', "        packet[:0] = b'\\xff'\n        self.s2k.parse(packet, iv=False)\n\n        ctend = self.header.length - len(self.s2k)\n        self.ct, packet[:] = packet[:ctend], packet[ctend:]")])
+T('C03', 'ag2-symenc-zero-iv-lambda-kwonly', SE, "def _encrypt(pt, key, alg, iv=None):\n    if iv is None:\n        iv = b'\\x00' * (alg.block_size // 8)",
+  "_zero_iv = lambda alg: b'\\x00' * (alg.block_size // 8)  # noqa: E731\n\n\ndef _encrypt(pt, key, alg, iv=None, *, _backend=default_backend):\n    if iv is None:\n        iv = _zero_iv(alg)",
+  more=[(SE, '        encryptor = Cipher(alg.cipher(key), modes.CFB(iv), default_backend()).encryptor()', '        encryptor = Cipher(alg.cipher(key), modes.CFB(iv), _backend()).encryptor()'),
+        (SE, 'def _decrypt(ct, key, alg, iv=None):', 'def _decrypt(ct, key, alg, iv=None, *, _backend=default_backend):'),
+        (SE, "        iv = b'\\x00' * (alg.block_size // 8)\n\n    try:\n        decryptor = Cipher(alg.cipher(key), modes.CFB(iv), default_backend()).decryptor()", '        iv = _zero_iv(alg)\n\n    try:\n        decryptor = Cipher(alg.cipher(key), modes.CFB(iv), _backend()).decryptor()')])
+T('C03', 'ag2-eckdf-split-join-fingerprint', FL, "        data += binascii.unhexlify(fingerprint.replace(' ', ''))",
+  "        data += binascii.unhexlify(''.join(fingerprint.split(' ')))")
+T('C03', 'ag2-compress-import-aliases', CO, 'import bz2\nimport hashlib\nimport imghdr\nimport os\nimport zlib\nimport warnings',
+  'import hashlib\nimport imghdr\nimport os\nimport warnings\n\nfrom bz2 import compress as bz2_compress\nfrom bz2 import decompress as bz2_decompress\nfrom zlib import MAX_WBITS\nfrom zlib import compress as zlib_compress\nfrom zlib import decompress as zlib_decompress',
+  more=[(CO, '            return zlib.compress(data)[2:-4]\n\n        if self is CompressionAlgorithm.ZLIB:\n            return zlib.compress(data)\n\n        if self is CompressionAlgorithm.BZ2:\n            return bz2.compress(data)', '            return zlib_compress(data)[2:-4]\n\n        if self is CompressionAlgorithm.ZLIB:\n            return zlib_compress(data)\n\n        if self is CompressionAlgorithm.BZ2:\n            return bz2_compress(data)'),
+        (CO, '            return zlib.decompress(data, -15)\n\n        if self is CompressionAlgorithm.ZLIB:\n            return zlib.decompress(data)\n\n        if self is CompressionAlgorithm.BZ2:\n            return bz2.decompress(data)', '            return zlib_decompress(data, -MAX_WBITS)\n\n        if self is CompressionAlgorithm.ZLIB:\n            return zlib_decompress(data)\n\n        if self is CompressionAlgorithm.BZ2:\n            return bz2_decompress(data)')])
+T('C03', 'ag2-symalg-fromkeys-pairs', CO, "        bs = {SymmetricKeyAlgorithm.IDEA: algorithms.IDEA,\n              SymmetricKeyAlgorithm.TripleDES: algorithms.TripleDES,\n              SymmetricKeyAlgorithm.CAST5: algorithms.CAST5,\n              SymmetricKeyAlgorithm.Blowfish: algorithms.Blowfish,\n              SymmetricKeyAlgorithm.AES128: algorithms.AES,\n              SymmetricKeyAlgorithm.AES192: algorithms.AES,\n              SymmetricKeyAlgorithm.AES256: algorithms.AES,\n              SymmetricKeyAlgorithm.Twofish256: namedtuple('Twofish256', ['block_size'])(block_size=128),\n              SymmetricKeyAlgorithm.Camellia128: algorithms.Camellia,\n              SymmetricKeyAlgorithm.Camellia192: algorithms.Camellia,\n              SymmetricKeyAlgorithm.Camellia256: algorithms.Camellia}",
+  "        bs = dict([(SymmetricKeyAlgorithm.IDEA, algorithms.IDEA),\n                   (SymmetricKeyAlgorithm.TripleDES, algorithms.TripleDES),\n                   (SymmetricKeyAlgorithm.CAST5, algorithms.CAST5),\n                   (SymmetricKeyAlgorithm.Blowfish, algorithms.Blowfish),\n                   (SymmetricKeyAlgorithm.AES128, algorithms.AES),\n                   (SymmetricKeyAlgorithm.AES192, algorithms.AES),\n                   (SymmetricKeyAlgorithm.AES256, algorithms.AES),\n                   (SymmetricKeyAlgorithm.Twofish256, namedtuple('Twofish256', ['block_size'])(block_size=128)),\n                   (SymmetricKeyAlgorithm.Camellia128, algorithms.Camellia),\n                   (SymmetricKeyAlgorithm.Camellia192, algorithms.Camellia),\n                   (SymmetricKeyAlgorithm.Camellia256, algorithms.Camellia)])",
+  more=[(CO, '        return self.cipher.block_size\n\n    @property\n    def key_size(self):\n        ks = {SymmetricKeyAlgorithm.IDEA: 128,\n              SymmetricKeyAlgorithm.TripleDES: 192,\n              SymmetricKeyAlgorithm.CAST5: 128,\n              SymmetricKeyAlgorithm.Blowfish: 128,\n              SymmetricKeyAlgorithm.AES128: 128,\n              SymmetricKeyAlgorithm.AES192: 192,\n              SymmetricKeyAlgorithm.AES256: 256,\n              SymmetricKeyAlgorithm.Twofish256: 256,\n              SymmetricKeyAlgorithm.Camellia128: 128,\n              SymmetricKeyAlgorithm.Camellia192: 192,\n              SymmetricKeyAlgorithm.Camellia256: 256}', "        cipher = self.cipher\n        return getattr(cipher, 'block_size')\n\n    @property\n    def key_size(self):\n        ks = {**dict.fromkeys((SymmetricKeyAlgorithm.IDEA,\n                               SymmetricKeyAlgorithm.CAST5,\n                               SymmetricKeyAlgorithm.Blowfish,\n                               SymmetricKeyAlgorithm.AES128,\n                               SymmetricKeyAlgorithm.Camellia128), 128),\n              **dict.fromkeys((SymmetricKeyAlgorithm.TripleDES,\n                               SymmetricKeyAlgorithm.AES192,\n                               SymmetricKeyAlgorithm.Camellia192), 192),\n              **dict.fromkeys((SymmetricKeyAlgorithm.AES256,\n                               SymmetricKeyAlgorithm.Twofish256,\n                               SymmetricKeyAlgorithm.Camellia256), 256)}")])
+T('C13', 'ag2-symalg-fromkeys-pairs', CO, "        bs = {SymmetricKeyAlgorithm.IDEA: algorithms.IDEA,\n              SymmetricKeyAlgorithm.TripleDES: algorithms.TripleDES,\n              SymmetricKeyAlgorithm.CAST5: algorithms.CAST5,\n              SymmetricKeyAlgorithm.Blowfish: algorithms.Blowfish,\n              SymmetricKeyAlgorithm.AES128: algorithms.AES,\n              SymmetricKeyAlgorithm.AES192: algorithms.AES,\n              SymmetricKeyAlgorithm.AES256: algorithms.AES,\n              SymmetricKeyAlgorithm.Twofish256: namedtuple('Twofish256', ['block_size'])(block_size=128),\n              SymmetricKeyAlgorithm.Camellia128: algorithms.Camellia,\n              SymmetricKeyAlgorithm.Camellia192: algorithms.Camellia,\n              SymmetricKeyAlgorithm.Camellia256: algorithms.Camellia}",
+  "        bs = dict([(SymmetricKeyAlgorithm.IDEA, algorithms.IDEA),\n                   (SymmetricKeyAlgorithm.TripleDES, algorithms.TripleDES),\n                   (SymmetricKeyAlgorithm.CAST5, algorithms.CAST5),\n                   (SymmetricKeyAlgorithm.Blowfish, algorithms.Blowfish),\n                   (SymmetricKeyAlgorithm.AES128, algorithms.AES),\n                   (SymmetricKeyAlgorithm.AES192, algorithms.AES),\n                   (SymmetricKeyAlgorithm.AES256, algorithms.AES),\n                   (SymmetricKeyAlgorithm.Twofish256, namedtuple('Twofish256', ['block_size'])(block_size=128)),\n                   (SymmetricKeyAlgorithm.Camellia128, algorithms.Camellia),\n                   (SymmetricKeyAlgorithm.Camellia192, algorithms.Camellia),\n                   (SymmetricKeyAlgorithm.Camellia256, algorithms.Camellia)])",
+  more=[(CO, '        return self.cipher.block_size\n\n    @property\n    def key_size(self):\n        ks = {SymmetricKeyAlgorithm.IDEA: 128,\n              SymmetricKeyAlgorithm.TripleDES: 192,\n              SymmetricKeyAlgorithm.CAST5: 128,\n              SymmetricKeyAlgorithm.Blowfish: 128,\n              SymmetricKeyAlgorithm.AES128: 128,\n              SymmetricKeyAlgorithm.AES192: 192,\n              SymmetricKeyAlgorithm.AES256: 256,\n              SymmetricKeyAlgorithm.Twofish256: 256,\n              SymmetricKeyAlgorithm.Camellia128: 128,\n              SymmetricKeyAlgorithm.Camellia192: 192,\n              SymmetricKeyAlgorithm.Camellia256: 256}', "        cipher = self.cipher\n        return getattr(cipher, 'block_size')\n\n    @property\n    def key_size(self):\n        ks = {**dict.fromkeys((SymmetricKeyAlgorithm.IDEA,\n                               SymmetricKeyAlgorithm.CAST5,\n                               SymmetricKeyAlgorithm.Blowfish,\n                               SymmetricKeyAlgorithm.AES128,\n                               SymmetricKeyAlgorithm.Camellia128), 128),\n              **dict.fromkeys((SymmetricKeyAlgorithm.TripleDES,\n                               SymmetricKeyAlgorithm.AES192,\n                               SymmetricKeyAlgorithm.Camellia192), 192),\n              **dict.fromkeys((SymmetricKeyAlgorithm.AES256,\n                               SymmetricKeyAlgorithm.Twofish256,\n                               SymmetricKeyAlgorithm.Camellia256), 256)}")])
+T('C03', 'ag2-msg-decrypt-filter-named-pred', PGP, '        for skesk in iter(sk for sk in self._sessionkeys if isinstance(sk, SKESessionKey)):',
+  '        def _is_skesk(sk):\n            return isinstance(sk, SKESessionKey)\n\n        for skesk in filter(_is_skesk, self._sessionkeys):')
+T('C03', 'ag2-key-decrypt-star-reversed', PGP, '        alg, key = pkesk.decrypt_sk(self._key)\n\n        # now that we have the symmetric cipher used and the key, we can decrypt the actual message\n        decmsg = PGPMessage()\n        decmsg.parse(message.message.decrypt(key, alg))',
+  '        unwrapped = pkesk.decrypt_sk(self._key)\n\n        # now that we have the symmetric cipher used and the key, we can decrypt the actual message\n        decmsg = PGPMessage()\n        decmsg.parse(message.message.decrypt(*reversed(unwrapped)))')
+T('C03', 'ag2-key-decrypt-nested-def-predicate', PGP, '        pkesk = next(pk for pk in message._sessionkeys if isinstance(pk, PKESessionKey)\n                     and pk.pkalg == self.key_algorithm and pk.encrypter == self.fingerprint.keyid)',
+  '        def _addressed_to_me(pk):\n            if not isinstance(pk, PKESessionKey):\n                return False\n            return pk.pkalg == self.key_algorithm and pk.encrypter == self.fingerprint.keyid\n\n        pkesk = next(pk for pk in message._sessionkeys if _addressed_to_me(pk))')
+T('C03', 'ag2-seipd-default-arg-const', PK, "    def encrypt(self, key, alg, data):\n        iv = alg.gen_iv()\n        data = iv + iv[-2:] + data\n\n        mdc = MDC()\n        mdc.mdc = binascii.hexlify(hashlib.new('SHA1', data + b'\\xd3\\x14').digest())",
+  "    def encrypt(self, key, alg, data, _mdc_header=b'\\xd3\\x14'):\n        iv = alg.gen_iv()\n        data = iv + iv[-2:] + data\n\n        mdc = MDC()\n        mdc.mdc = binascii.hexlify(hashlib.new('SHA1', data + _mdc_header).digest())")
+T('C03', 'ag2-ecdh-closures-condexpr', FL, '        if km.oid == EllipticCurveOID.Curve25519:\n            v = x25519.X25519PrivateKey.generate()\n            x = v.public_key().public_bytes(encoding=serialization.Encoding.Raw, format=serialization.PublicFormat.Raw)\n            ct.p = ECPoint.from_values(km.oid.key_size, ECPointFormat.Native, x)\n            s = v.exchange(km.__pubkey__())\n        else:\n            v = ec.generate_private_key(km.oid.curve(), default_backend())\n            x = MPI(v.public_key().public_numbers().x)\n            y = MPI(v.public_key().public_numbers().y)\n            ct.p = ECPoint.from_values(km.oid.key_size, ECPointFormat.Standard, x, y)\n            s = v.exchange(ec.ECDH(), km.__pubkey__())',
+  '        def _x25519():\n            v = x25519.X25519PrivateKey.generate()\n            x = v.public_key().public_bytes(encoding=serialization.Encoding.Raw, format=serialization.PublicFormat.Raw)\n            return ECPoint.from_values(km.oid.key_size, ECPointFormat.Native, x), v.exchange(km.__pubkey__())\n\n        def _weierstrass():\n            v = ec.generate_private_key(km.oid.curve(), default_backend())\n            x = MPI(v.public_key().public_numbers().x)\n            y = MPI(v.public_key().public_numbers().y)\n            return ECPoint.from_values(km.oid.key_size, ECPointFormat.Standard, x, y), v.exchange(ec.ECDH(), km.__pubkey__())\n\n        ct.p, s = _x25519() if km.oid == EllipticCurveOID.Curve25519 else _weierstrass()')
+T('C13', 'ag2-ecdh-closures-condexpr', FL, '        if km.oid == EllipticCurveOID.Curve25519:\n            v = x25519.X25519PrivateKey.generate()\n            x = v.public_key().public_bytes(encoding=serialization.Encoding.Raw, format=serialization.PublicFormat.Raw)\n            ct.p = ECPoint.from_values(km.oid.key_size, ECPointFormat.Native, x)\n            s = v.exchange(km.__pubkey__())\n        else:\n            v = ec.generate_private_key(km.oid.curve(), default_backend())\n            x = MPI(v.public_key().public_numbers().x)\n            y = MPI(v.public_key().public_numbers().y)\n            ct.p = ECPoint.from_values(km.oid.key_size, ECPointFormat.Standard, x, y)\n            s = v.exchange(ec.ECDH(), km.__pubkey__())',
+  '        def _x25519():\n            v = x25519.X25519PrivateKey.generate()\n            x = v.public_key().public_bytes(encoding=serialization.Encoding.Raw, format=serialization.PublicFormat.Raw)\n            return ECPoint.from_values(km.oid.key_size, ECPointFormat.Native, x), v.exchange(km.__pubkey__())\n\n        def _weierstrass():\n            v = ec.generate_private_key(km.oid.curve(), default_backend())\n            x = MPI(v.public_key().public_numbers().x)\n            y = MPI(v.public_key().public_numbers().y)\n            return ECPoint.from_values(km.oid.key_size, ECPointFormat.Standard, x, y), v.exchange(ec.ECDH(), km.__pubkey__())\n\n        ct.p, s = _x25519() if km.oid == EllipticCurveOID.Curve25519 else _weierstrass()')
+T('C03', 'ag2-key-encrypt-partial-bound-method', PGP, '        pkesk.encrypt_sk(self._key, cipher_algo, sessionkey)',
+  '        wrap = pkesk.encrypt_sk\n        wrap(self._key, cipher_algo, sessionkey)',
+  more=[(PGP, '            skedata.encrypt(sessionkey, cipher_algo, message.__bytes__())', '            seal = functools.partial(skedata.encrypt, sessionkey, cipher_algo)\n            seal(message.__bytes__())')])
+T('C13', 'ag2-key-encrypt-partial-bound-method', PGP, '        pkesk.encrypt_sk(self._key, cipher_algo, sessionkey)',
+  '        wrap = pkesk.encrypt_sk\n        wrap(self._key, cipher_algo, sessionkey)',
+  more=[(PGP, '            skedata.encrypt(sessionkey, cipher_algo, message.__bytes__())', '            seal = functools.partial(skedata.encrypt, sessionkey, cipher_algo)\n            seal(message.__bytes__())')])
+T('C03', 'ag2-header-init-setattr-loop', TY, '    def __init__(self):\n        super(Header, self).__init__()\n        self._len = 1\n        self._llen = 1\n        self._lenfmt = 1\n        self._partial = False',
+  "    def __init__(self, _newfmt=1):\n        super(Header, self).__init__()\n        for name, value in (('_len', 1), ('_llen', 1), ('_lenfmt', _newfmt), ('_partial', False)):\n            setattr(self, name, value)")
+T('C03', 'ag2-symenc-zero-iv-to-bytes-ljust', SE, "        iv = b'\\x00' * (alg.block_size // 8)\n\n    if alg.is_insecure:",
+  "        iv = (0).to_bytes(alg.block_size // 8, 'big')\n\n    if alg.is_insecure:",
+  more=[(SE, "        iv = b'\\x00' * (alg.block_size // 8)", "        iv = b''.ljust(alg.block_size // 8, b'\\x00')")])
+T('C03', 'ag2-pkesk-checksum-reduce-divmod', PK, 'import hashlib',
+  'import functools\nimport hashlib\nimport operator',
+  more=[(PK, '        m += self.int_to_bytes(sum(bytearray(symkey)) % 65536, 2)', '        _, checksum = divmod(functools.reduce(operator.add, bytearray(symkey), 0), 65536)\n        m += self.int_to_bytes(checksum, 2)')])
+T('C13', 'ag2-pkesk-checksum-reduce-divmod', PK, 'import hashlib',
+  'import functools\nimport hashlib\nimport operator',
+  more=[(PK, '        m += self.int_to_bytes(sum(bytearray(symkey)) % 65536, 2)', '        _, checksum = divmod(functools.reduce(operator.add, bytearray(symkey), 0), 65536)\n        m += self.int_to_bytes(checksum, 2)')])
+T('C03', 'ag2-decompress-partial-dispatch', CO, 'import hashlib',
+  'import functools\nimport hashlib',
+  more=[(CO, '        if self is CompressionAlgorithm.Uncompressed:\n            return data\n\n        if self is CompressionAlgorithm.ZIP:\n            return zlib.decompress(data, -15)\n\n        if self is CompressionAlgorithm.ZLIB:\n            return zlib.decompress(data)\n\n        if self is CompressionAlgorithm.BZ2:\n            return bz2.decompress(data)\n\n        raise NotImplementedError(self)', '        inflaters = {CompressionAlgorithm.ZIP: functools.partial(zlib.decompress, wbits=-15),\n                     CompressionAlgorithm.ZLIB: zlib.decompress,\n                     CompressionAlgorithm.BZ2: bz2.decompress}\n\n        if self is CompressionAlgorithm.Uncompressed:\n            return data\n\n        if self not in inflaters:\n            raise NotImplementedError(self)\n\n        return inflaters[self](data)')])
+T('C03', 'ag2-header-operator-or', PT, '\nfrom ..constants import PacketTag',
+  'import operator\n\nfrom ..constants import PacketTag',
+  more=[(PT, '        tag = 0x80 | (self._lenfmt << 6)\n        tag |= (self.tag) if self._lenfmt else ((self.tag << 2) | {1: 0, 2: 1, 4: 2, 0: 3}[self.llen])', '        tag = operator.or_(0x80, self._lenfmt << 6)\n        tag = operator.or_(tag, (self.tag) if self._lenfmt else ((self.tag << 2) | {1: 0, 2: 1, 4: 2, 0: 3}[self.llen]))')])
+T('C13', 'ag2-geniv-operator-floordiv', CO, 'import os',
+  'import operator\nimport os',
+  more=[(CO, '        return os.urandom(self.block_size // 8)\n\n    def gen_key(self):\n        return os.urandom(self.key_size // 8)', '        return bytes(os.urandom(operator.floordiv(self.block_size, 8)))\n\n    def gen_key(self):\n        return bytes(os.urandom(operator.floordiv(self.key_size, 8)))')])
+T('C13', 'ag2-geniv-getattr-urandom', CO, '    def gen_iv(self):\n        return os.urandom(self.block_size // 8)\n\n    def gen_key(self):\n        return os.urandom(self.key_size // 8)',
+  "    @staticmethod\n    def _octets(bits):\n        return bits // 8\n\n    def gen_iv(self):\n        return getattr(os, 'urandom')(self._octets(bits=self.block_size))\n\n    def gen_key(self):\n        return getattr(os, 'urandom')(self._octets(bits=self.key_size))")
+T('C13', 'ag2-keyblob-urandom-alias', FL, '        self.s2k.iv = enc_alg.gen_iv()\n        self.s2k.halg = hash_alg\n        self.s2k.salt = bytearray(os.urandom(8))',
+  '        rand = os.urandom\n        self.s2k.iv = enc_alg.gen_iv()\n        self.s2k.halg = hash_alg\n        salt = rand(8)\n        self.s2k.salt = bytearray(salt)')
+T('C13', 'ag2-geniv-inline-blocksize', CO, '        return os.urandom(self.block_size // 8)\n\n    def gen_key(self):\n        return os.urandom(self.key_size // 8)',
+  '        return os.urandom(self.cipher.block_size // 8)\n\n    def gen_key(self):\n        # every key size in the table is a whole number of octets\n        return os.urandom((self.key_size + 7) // 8)')
+# ---- round 2 of the independent mutation agent: gaps closed (captured secrets, point coordinates, result object, re-addressing arm, parse order, ...)
+M('C13', 'ag2-key-captured-in-closure', PK, '        self.update_hlen()\n\n    def decrypt(self, key, alg):',
+  '        self.reseal = lambda body: _encrypt(body, key, alg)\n        self.update_hlen()\n\n    def decrypt(self, key, alg):', 'C13.3')
+M('C13', 'ag2-ephemeral-captured-in-closure', FL, '        ct.c = aes_key_wrap(z, m, default_backend())',
+  '        ct.c = aes_key_wrap(z, m, default_backend())\n        ct.shared_with = lambda other: v.exchange(ec.ECDH(), other) if km.oid != EllipticCurveOID.Curve25519 else v.exchange(other)', 'C13.2')
+M('C13', 'ag2-key-in-stored-genexp', PK, '        self.update_hlen()\n\n    def decrypt(self, key, alg):',
+  '        self._more = (_encrypt(chunk, key, alg) for chunk in ())\n        self.update_hlen()\n\n    def decrypt(self, key, alg):', 'C13.3')
+M('C13', 'ag2-lambda-default-binds-key', PK, '        self.update_hlen()\n\n    def decrypt(self, key, alg):',
+  '        self.reseal = lambda body, _k=key, _a=alg: _encrypt(body, _k, _a)\n        self.update_hlen()\n\n    def decrypt(self, key, alg):', 'C13.3')
+M('C13', 'ag2-inner-class-captures-key', PK, '        self.update_hlen()\n\n    def decrypt(self, key, alg):',
+  '\n        class _Params(object):\n            cipher = alg\n            secret = key\n        self.params = _Params\n        self.update_hlen()\n\n    def decrypt(self, key, alg):', 'C13.3')
+M('C13', 'ag2-function-attr-closure', SE, '    if alg.is_insecure:',
+  '    _encrypt.replay = lambda data: Cipher(alg.cipher(key), modes.CFB(iv), default_backend()).encryptor().update(data)\n\n    if alg.is_insecure:', 'C13.3')
+M('C13', 'ag2-assert-message-key', PGP, '        # set up a new PKESessionKeyV3',
+  '        assert len(sessionkey) == cipher_algo.key_size // 8, sessionkey\n\n        # set up a new PKESessionKeyV3', 'C13.3')
+M('C13', 'ag2-locals-snapshot', PGP, '        return msg\n\n    def decrypt(self, passphrase):',
+  '        msg._origin = dict(locals())\n        return msg\n\n    def decrypt(self, passphrase):', 'C13.3')
+M('C13', 'ag2-genkey-alias-of-geniv', CO, '    def gen_key(self):\n        return os.urandom(self.key_size // 8)',
+  '    gen_key = gen_iv', 'C13.1')
+M('C03', 'ag2-ecdh-point-xy-swapped', FL, '            x = MPI(v.public_key().public_numbers().x)\n            y = MPI(v.public_key().public_numbers().y)\n            ct.p = ECPoint.from_values(km.oid.key_size, ECPointFormat.Standard, x, y)',
+  '            pn = v.public_key().public_numbers()\n            px, py = MPI(pn.y), MPI(pn.x)\n            ct.p = ECPoint.from_values(km.oid.key_size, ECPointFormat.Standard, px, py)', 'C03.5')
+M('C03', 'ag2-ecdh-decrypt-point-kwargs-swapped', FL, '            v = ec.EllipticCurvePublicNumbers(self.p.x, self.p.y, km.oid.curve()).public_key(default_backend())',
+  '            v = ec.EllipticCurvePublicNumbers(x=self.p.y, y=self.p.x, curve=km.oid.curve()).public_key(default_backend())', 'C03.5')
+M('C03', 'ag2-x25519-point-bytes-reversed', FL, '            ct.p = ECPoint.from_values(km.oid.key_size, ECPointFormat.Native, x)',
+  '            ct.p = ECPoint.from_values(km.oid.key_size, ECPointFormat.Native, x[::-1])', 'C03.5')
+M('C03', 'ag2-x25519-decrypt-point-reversed', FL, '            v = x25519.X25519PublicKey.from_public_bytes(self.p.x)',
+  '            v = x25519.X25519PublicKey.from_public_bytes(bytes(self.p.x)[::-1])', 'C03.5')
+M('C03', 'ag2-rsact-returns-empty-object', FL, '        ct = cls()\n        ct.me_mod_n = MPI(cls.bytes_to_int(encfn(*args)))',
+  '        ct, out = cls(), cls()\n        out.me_mod_n = MPI(cls.bytes_to_int(encfn(*args)))', 'C03.1')
+M('C03', 'ag2-ecdh-c-set-on-class', FL, '        ct.c = aes_key_wrap(z, m, default_backend())',
+  '        cls.c = aes_key_wrap(z, m, default_backend())', 'C03.5')
+M('C03', 'ag2-pkesk-only-in-else-arm', PGP, '\n        _m |= pkesk',
+  '            _m |= pkesk', 'C03.7')
+M('C03', 'ag2-skesk-only-in-plain-arm', PGP, '        msg = PGPMessage() | skesk\n\n        if not self.is_encrypted:\n            skedata = IntegrityProtectedSKEDataV1()\n            skedata.encrypt(sessionkey, cipher_algo, self.__bytes__())\n            msg |= skedata\n\n        else:\n            msg |= self',
+  '        if not self.is_encrypted:\n            msg = PGPMessage() | skesk\n            skedata = IntegrityProtectedSKEDataV1()\n            skedata.encrypt(sessionkey, cipher_algo, self.__bytes__())\n            msg |= skedata\n\n        else:\n            msg = PGPMessage() | self', 'C03.7')
+M('C03', 'ag2-skesk-parse-ctend-before-s2k', PK, '        self.s2k.parse(packet, iv=False)\n\n        ctend = self.header.length - len(self.s2k)',
+  '        ctend = self.header.length - len(self.s2k)\n        self.s2k.parse(packet, iv=False)\n', 'C03.3')
+M('C03', 'ag2-blocksize-table-missing-cast5', CO, '        return self.cipher.block_size',
+  '        narrow = {SymmetricKeyAlgorithm.IDEA, SymmetricKeyAlgorithm.TripleDES, SymmetricKeyAlgorithm.Blowfish}\n        if not self.is_supported:\n            return self.cipher.block_size\n        return 64 if self in narrow else 128', 'C03.4')
+M('C03', 'ag2-select-short-keyid', PGP, '                     and pk.pkalg == self.key_algorithm and pk.encrypter == self.fingerprint.keyid)',
+  '                     and pk.pkalg == self.key_algorithm and pk.encrypter[-8:] == self.fingerprint.keyid[-8:])', 'C03.8')
+
 # =============================================================================================== C02
 M('C02', 'hash2-last-two', PGP, "        sig._signature.hash2 = bytearray(h2.digest()[:2])", "        sig._signature.hash2 = bytearray(h2.digest()[-2:])", 'C02.2')
 M('C02', 'signer-hashdata-none', PGP, "        _sig = self._key.sign(sigdata, getattr(hashes, sig.hash_algorithm.name)())", "        _sig = self._key.sign(sig.hashdata(None), getattr(hashes, sig.hash_algorithm.name)())", 'C02.2')
